@@ -394,6 +394,47 @@ def extract_register_aliases(fns):
                 rebuild=rebuild[0], keeps=keeps, appends='new_items.append(new_item)' in texts)
 
 
+def extract_arith_eval(classes):
+    """Arithmetic.eval: what is handed to the builtin eval (the expression text AS WRITTEN, no builtins, the environment), that the
+    position of the item plays no part, which exceptions become AssemblerError, the integer test, the character-literal branch."""
+    if 'Arithmetic' not in classes:
+        fail(None, 'class Arithmetic not found')
+    m = method(classes['Arithmetic'], 'eval')
+    if [a.arg for a in m.args.args] != ['self', 'position', 'env', 'line']:
+        fail(m, 'Arithmetic.eval parameters')
+    uses_position = any(isinstance(n, ast.Name) and n.id == 'position' for st in m.body for n in ast.walk(st))
+    calls = [n for st in m.body for n in ast.walk(st) if isinstance(n, ast.Call) and isinstance(n.func, ast.Name) and n.func.id == 'eval']
+    if len(calls) != 1 or calls[0].keywords:
+        fail(m, 'exactly one call of the builtin eval expected')
+    eval_args = [ast.unparse(a) for a in calls[0].args]
+    body = strip_doc(m.body)
+    tries = [st for st in body if isinstance(st, ast.Try) and any(n is calls[0] for n in ast.walk(st))]
+    if len(tries) != 1:
+        fail(m, 'the eval call must stand in one try statement at the top level of the method')
+    handlers = []
+    for h in tries[0].handlers:
+        ok = (len(h.body) == 1 and isinstance(h.body[0], ast.Raise) and isinstance(h.body[0].exc, ast.Call)
+              and ast.unparse(h.body[0].exc.func) == 'AssemblerError' and ast.unparse(h.body[0].exc.args[-1]) == 'line')
+        handlers.append(('bare' if h.type is None else ast.unparse(h.type)) + (' -> AssemblerError' if ok else ' -> ?'))
+    try_texts = [ast.unparse(x) for x in strip_doc(tries[0].body)]
+    int_tests = [ast.unparse(st.test) for st in body if isinstance(st, ast.If) and st.body and isinstance(st.body[-1], ast.Raise)
+                 and not any(n is calls[0] for n in ast.walk(st))]
+    last = ast.unparse(body[-1]) if body else '?'
+    first = body[0]
+    char = ['?']
+    if isinstance(first, ast.If) and not first.orelse:
+        char = [ast.unparse(first.test)]
+        for st in first.body:
+            if isinstance(st, ast.Try):
+                char += [ast.unparse(x) for x in strip_doc(st.body)]
+                char += ['except ' + ('bare' if h.type is None else ast.unparse(h.type)) for h in st.handlers]
+            else:
+                char.append(ast.unparse(st))
+    top = [type(st).__name__ for st in body]
+    return dict(uses_position=uses_position, eval_args=eval_args, handlers=handlers, try_body=try_texts, int_tests=int_tests,
+                last=last, char=char, top=top)
+
+
 def guarded(notes, name, fn, default):
     try:
         return fn()
@@ -423,6 +464,8 @@ def emit(repo):
     rc = guarded(notes, 'resolve_constants', lambda: extract_resolve_constants(fns), dict(env=[], eval=[], tests=[], store=False))
     ra = guarded(notes, 'resolve_register_aliases', lambda: extract_register_aliases(fns),
                  dict(regs=[], src='?', tests=[], assigns=[], update=False, rebuild='?', keeps=[], appends=False))
+    ae = guarded(notes, 'arithmetic_eval', lambda: extract_arith_eval(classes),
+                 dict(uses_position=True, eval_args=[], handlers=[], try_body=[], int_tests=[], last='?', char=[], top=[]))
     b = lambda x: 'true' if x else 'false'
     out = [HEADER.format(src='asm.py (Expr.eval methods, is_position_relative, is_settled, the guards of transform_compressible, '
                              'resolve_immediates, resolve_labels, resolve_constants)')]
@@ -470,6 +513,15 @@ def emit(repo):
     out.append('Definition rc_eval_args : list string := {}.'.format(slist(rc['eval'])))
     out.append('Definition rc_tests : list string := {}.'.format(slist(rc['tests'])))
     out.append('Definition rc_stores : bool := {}.'.format(b(rc['store'])))
+    out.append('\n(* ---- Arithmetic.eval ---- *)')
+    out.append('Definition ae_uses_position : bool := {}.'.format(b(ae['uses_position'])))
+    out.append('Definition ae_eval_args : list string := {}.'.format(slist(ae['eval_args'])))
+    out.append('Definition ae_try_body : list string := {}.'.format(slist(ae['try_body'])))
+    out.append('Definition ae_handlers : list string := {}.'.format(slist(ae['handlers'])))
+    out.append('Definition ae_int_tests : list string := {}.'.format(slist(ae['int_tests'])))
+    out.append('Definition ae_returns : string := {}.'.format(slit(ae['last'])))
+    out.append('Definition ae_char_branch : list string := {}.'.format(slist(ae['char'])))
+    out.append('Definition ae_statements : list string := {}.'.format(slist(ae['top'])))
     out.append('\n(* ---- resolve_register_aliases ---- *)')
     out.append('Definition ra_regs : list string := {}.'.format(slist(ra['regs'])))
     out.append('Definition ra_fields_from : string := {}.'.format(slit(ra['src'])))
